@@ -189,9 +189,9 @@ def unwrapChain (h : Heap) : Nat → Val → List Val
 /-- `New(message)` -/
 def new (h : Heap) (m : String) : Heap × Val := (h.push { msg := m, hasStack := true }, .ref h.size)
 
-/-- `NewWithCause(message, cause)` -/
+/-- `NewWithCause(message, cause)`: `if isNil(cause) { cause = nil }` — a typed nil is not a cause -/
 def newWithCause (h : Heap) (m : String) (c : Val) : Heap × Val :=
-  (h.push { msg := m, hasStack := true, cause := c }, .ref h.size)
+  (h.push { msg := m, hasStack := true, cause := if isNil c then .nilIface else c }, .ref h.size)
 
 /-- `&Error{}` -/
 def newEmpty (h : Heap) : Heap × Val := (h.push { msg := "" }, .ref h.size)
